@@ -57,6 +57,7 @@ type c03Shape struct {
 	M, G, R int
 	Action  bool
 	Flat    bool // all group handlers on one Group instead of nested groups
+	Late    bool // the last application middleware and the action are installed only after the application has served requests
 }
 
 func (s c03Shape) n() int {
@@ -68,7 +69,7 @@ func (s c03Shape) n() int {
 }
 
 func (s c03Shape) String() string {
-	return fmt.Sprintf("mw=%d group=%d route=%d action=%v flat=%v", s.M, s.G, s.R, s.Action, s.Flat)
+	return fmt.Sprintf("mw=%d group=%d route=%d action=%v flat=%v late=%v", s.M, s.G, s.R, s.Action, s.Flat, s.Late)
 }
 
 type c03Ev struct {
@@ -136,8 +137,14 @@ func c03Build(s c03Shape, strMask int) *c03World {
 		id++
 		return h
 	}
+	var lateMW flamego.Handler
 	for i := 0; i < s.M; i++ {
-		w.f.Use(next())
+		h := next()
+		if s.Late && i == s.M-1 {
+			lateMW = h
+			continue
+		}
+		w.f.Use(h)
 	}
 	var gh []flamego.Handler
 	for i := 0; i < s.G; i++ {
@@ -175,6 +182,20 @@ func c03Build(s c03Shape, strMask int) *c03World {
 			w.path += fmt.Sprintf("/g%d", d)
 		}
 		w.path += "/x"
+	}
+	if s.Late {
+		// serve before the configuration is complete, then complete it
+		w.prog = make([]c03Beh, s.n())
+		for i := 0; i < 2; i++ {
+			func() {
+				defer func() { _ = recover() }()
+				w.f.ServeHTTP(&c01Spy{hdr: http.Header{}}, newReq("GET", w.path))
+			}()
+		}
+		w.trace = w.trace[:0]
+		if lateMW != nil {
+			w.f.Use(lateMW)
+		}
 	}
 	if s.Action {
 		w.f.Action(next())
@@ -375,6 +396,9 @@ func c03Shapes(maxN int, thorough bool) []c03Shape {
 					out = append(out, c03Shape{M: m, G: g, R: r, Action: act})
 					if g >= 2 && thorough {
 						out = append(out, c03Shape{M: m, G: g, R: r, Action: act, Flat: true})
+					}
+					if (m >= 1 || act) && (thorough || n <= 3) {
+						out = append(out, c03Shape{M: m, G: g, R: r, Action: act, Late: true})
 					}
 				}
 			}
